@@ -11,8 +11,8 @@
    * [defs] is TableData.indexes: keyed by the LOWER-CASED name, the value carries the index's own Name;
    * [stor] is TableData.secondaryIndexStorage: keyed by the index's own Name (as addRowToIndexes and the read path
      do), [skeys] is the key set of that Go map (needed because sortSecondaryIndexes ranges over it);
-   * an identifier is (id, has_upper): lower-casing clears the flag.  DropIndex deletes the storage under the
-     lower-cased map key, exactly as the Go code does, so the storage of a mixed-case index survives its drop;
+   * an identifier is (id, has_upper): lower-casing clears the flag.  DropIndex and RenameIndex address the storage
+     by the index's own name (since /repo b327559e5; before, the lower-cased map key was used / nothing was moved);
    * Go map iteration order (cmap.Foreach over deletes/adds) is not modelled: every theorem is per operation and
      quantified over the order in which rows are handed to the helpers. *)
 From Coq Require Import List NArith ZArith Bool Arith Lia.
@@ -307,27 +307,33 @@ Definition create_index (hp : row -> nat) (td : tdata) (d : idef) : outcome :=
   | None => apply_edits (truncate (add_def td d)) [] (map (fun r => (hp r, r)) (all_rows td))
   end.
 
-(* DropIndex: delete(data.indexes, key); delete(data.secondaryIndexStorage, indexName(key)) with the LOWER-CASED key *)
+(* DropIndex: delete(data.secondaryIndexStorage, indexName(idx.ID())) — the index's own, case-preserving name — and
+   delete(data.indexes, key) *)
 Definition drop_index (td : tdata) (nm : name) : tdata :=
   let k := lower nm in
   match def_keyed (defs td) k with
   | None => td
-  | Some _ =>
+  | Some d =>
       {| parts := parts td; pkcols := pkcols td;
          defs := filter (fun kd => negb (name_eqb (fst kd) k)) (defs td);
-         stor := fun n => if name_eqb n k then [] else stor td n;
-         skeys := filter (fun n => negb (name_eqb n k)) (skeys td) |}
+         stor := fun n => if name_eqb n (iname d) then [] else stor td n;
+         skeys := filter (fun n => negb (name_eqb n (iname d))) (skeys td) |}
   end.
 
-(* RenameIndex: re-key the definition and change Index.Name; the storage map is not touched *)
+(* RenameIndex: re-key the definition, change Index.Name, and move the storage entry (if there is one) from the old
+   name to the new one *)
 Definition rename_index (td : tdata) (old new : name) : tdata :=
   if name_eqb old new then td else
   match def_keyed (defs td) (lower old), def_keyed (defs td) (lower new) with
   | Some d, None =>
+      let moved := mem_name (iname d) (skeys td) in
       {| parts := parts td; pkcols := pkcols td;
          defs := filter (fun kd => negb (name_eqb (fst kd) (lower old))) (defs td)
                  ++ [(lower new, {| iname := new; icols := icols d; nsort := nsort d |})];
-         stor := stor td; skeys := skeys td |}
+         stor := fun n => if moved then (if name_eqb n new then stor td (iname d)
+                                         else if name_eqb n (iname d) then [] else stor td n)
+                          else stor td n;
+         skeys := if moved then add_key new (filter (fun n => negb (name_eqb n (iname d))) (skeys td)) else skeys td |}
   | _, _ => td
   end.
 
@@ -378,7 +384,7 @@ Definition init (nparts : nat) (pks : list nat) : tdata :=
    tableEditor.Insert / Update look the new primary key up (ea.Get) before accumulating an add, so insertHelper is
    only ever handed a row whose primary key is absent from the table once the statement's deletes are applied; and
    TableData.partition returns an index below len(partitionKeys).  [hist_ok] says exactly that of a history (and
-   that it contains no RENAME INDEX, which is treated separately). *)
+   that it contains no CREATE INDEX whose rewrite failed, which is treated separately). *)
 Definition fresh_insert (td : tdata) (p : nat) (r : row) : bool :=
   Nat.ltb p (length (parts td)) &&
   match pkcols td with
@@ -402,7 +408,6 @@ Definition step_ok (hp : row -> nat) (td : tdata) (o : op) : bool :=
                  | Some _ => true
                  | None => apply_fresh (truncate (add_def td d)) [] (map (fun r => (hp r, r)) (all_rows td))
                  end
-  | ORename _ _ => false
   | OCreateFailed _ => false
   | _ => true
   end.
